@@ -1,7 +1,7 @@
 (* C11 — property theorems about the model of zip_bomb.py / zip_context.py.
    Only statements closed by `exact`, each followed by Print Assumptions. *)
 From Coq Require Import ZArith List Bool Lia.
-From S2T Require Import C11.Model C11.ProofsFloat C11.Proofs C11.ModelNames C11.ProofsNames.
+From S2T Require Import C11.Model C11.ProofsFloat C11.Proofs C11.ModelNames C11.ModelSession C11.ProofsNames.
 Import ListNotations.
 Open Scope Z_scope.
 
@@ -183,3 +183,23 @@ Print Assumptions C11_file_member_never_ignored.
 Theorem C11_trailing_slash_is_dir : forall n : list N, name_is_dir (n ++ [47%N]) = true.
 Proof. exact name_is_dir_slash. Qed.
 Print Assumptions C11_trailing_slash_is_dir.
+
+(* ---- every record counts, no state between calls (round 4) ---- *)
+(* names matter only through the trailing slash: repeated names, empty names, any renaming that keeps the
+   slash status leave the verdict unchanged (with C11_file_member_never_ignored: EVERY record is checked,
+   also a later record of a name already seen) *)
+Theorem C11_names_irrelevant :
+  forall (L : limits) (g : list N -> list N) (rs : list raw_entry),
+    (forall n, name_is_dir (g n) = name_is_dir n) ->
+    validate_raw L (map (rename g) rs) = validate_raw L rs.
+Proof. exact names_irrelevant. Qed.
+Print Assumptions C11_names_irrelevant.
+
+(* in a sequence of guard calls (validate_zip_bytesio / open_zipfile / ZipContext), whatever came before
+   and whatever comes after, each call does what it would do on its own: the outcome is a function of the
+   bytes in the buffer now and of the limits passed now *)
+Theorem C11_session_history_independent :
+  forall (pre : list call) (c : call) (post : list call),
+    nth_error (run_session (pre ++ c :: post)) (List.length pre) = Some (run_call c).
+Proof. exact session_history_independent. Qed.
+Print Assumptions C11_session_history_independent.
